@@ -8,10 +8,27 @@ namespace wc {
 
 // certificate tuple of one polyhedron, ordered as {H79,BHRZ03}_Certificate::compare(const Certificate&) orders them
 struct PCert { bool bhrz; int affdim, lindim, ncons, npoints; std::vector<int> rayhist; };
+// Orientation of the two dimension components in the certificate-vs-certificate overload, probed once
+// on the library under test (that overload orders them opposite to compare(const Polyhedron&); the
+// multiset order of BHZ03 is the one the library's Certificate class defines, whichever way it points).
+inline int cert_dim_orientation(bool bhrz, bool lin) {
+  static int cache[2][2] = { { 0, 0 }, { 0, 0 } };
+  int& c = cache[bhrz][lin];
+  if (c == 0) {
+    Variable A(0);
+    C_Polyhedron lo(1, EMPTY), hi(1, EMPTY);
+    if (!lin) { lo.add_generator(point(0 * A)); hi.add_generator(point(0 * A)); hi.add_generator(point(A)); }       // affine dimension 0 vs 1
+    else { lo.add_generator(point(0 * A)); lo.add_generator(ray(A)); hi.add_generator(point(0 * A)); hi.add_generator(line(A)); }   // lineality 0 vs 1
+    const Polyhedron& l = lo; const Polyhedron& h = hi;
+    int r = bhrz ? BHRZ03_Certificate(h).compare(BHRZ03_Certificate(l)) : H79_Certificate(h).compare(H79_Certificate(l));
+    c = r >= 0 ? 1 : -1;
+  }
+  return c;
+}
 inline int pcert_cmp(const PCert& a, const PCert& b) {   // 1: a greater
-  if (a.affdim != b.affdim) return a.affdim > b.affdim ? 1 : -1;
+  if (a.affdim != b.affdim) return ((a.affdim > b.affdim) == (cert_dim_orientation(a.bhrz, false) > 0)) ? 1 : -1;
   if (a.bhrz) {
-    if (a.lindim != b.lindim) return a.lindim > b.lindim ? 1 : -1;
+    if (a.lindim != b.lindim) return ((a.lindim > b.lindim) == (cert_dim_orientation(true, true) > 0)) ? 1 : -1;
     if (a.ncons != b.ncons) return a.ncons > b.ncons ? 1 : -1;
     if (a.npoints != b.npoints) return a.npoints > b.npoints ? 1 : -1;
     for (size_t i = 0; i < a.rayhist.size(); ++i) if (a.rayhist[i] != b.rayhist[i]) return a.rayhist[i] > b.rayhist[i] ? 1 : -1;
